@@ -123,6 +123,46 @@ def defined(st, f):
     return len(kids) >= 2 and kids == set(range(len(kids)))
 
 
+COEF = re.compile(r"(^|[^a-z])(ep\d*|eb|ed)_(a|b)\b|curve_get_(a|b)\b|\bep_iso\.(a|b)\b")
+
+
+def rule_rhs_shape(ctx, prog, chk):
+    """RHS-SHAPE: wherever the curve polynomial g(x) = x^3 + a x + b is evaluated by Horner's rule with the curve
+    coefficients (t = x^2; t = t + a; t = t * Y; t = t + b), the multiplier Y is the x that was squared.  The map
+    parameters are chosen by testing g at particular points (g(u), g(b / (u a))): with another multiplier the test is
+    about a different quantity and the exceptional inputs of the map leave the curve"""
+    n = 0
+    for fn in prog.all:
+        if not (re.search(r"(_curve|_map|_pck|_util)\.c$|_tmpl\.h$", fn.rfile) or "selftest" in fn.file):
+            continue
+        els = [el for el in fn.all_elements()]
+        calls = []
+        for el in els:
+            for c in ir.calls_in(fn, el.e):
+                if c[1] and c[2]:
+                    calls.append((el, c))
+        for i in range(len(calls) - 3):
+            (e1, c1), (e2, c2), (e3, c3), (e4, c4) = calls[i:i + 4]
+            if not (re.search(r"^f[pb]\d*_sqr(_\w+)?$", c1[1]) and len(c1[2]) == 2):
+                continue
+            T, X = key(fn, c1[2][0]), key(fn, c1[2][1])
+            if not (re.search(r"^f[pb]\d*_add(_\w+)?$", c2[1]) and len(c2[2]) == 3 and key(fn, c2[2][0]) == T and key(fn, c2[2][1]) == T and COEF.search(fn.fmt(c2[2][2]))):
+                continue
+            if not (re.search(r"^f[pb]\d*_mul(_\w+)?$", c3[1]) and len(c3[2]) == 3 and key(fn, c3[2][0]) == T and key(fn, c3[2][1]) == T):
+                continue
+            if not (re.search(r"^f[pb]\d*_add(_\w+)?$", c4[1]) and len(c4[2]) == 3 and key(fn, c4[2][0]) == T and key(fn, c4[2][1]) == T and COEF.search(fn.fmt(c4[2][2]))):
+                continue
+            Y = key(fn, c3[2][2])
+            n += 1
+            obj = "g(%s)" % re.sub(r"\s+", "", fn.fmt(c1[2][1]))[:30]
+            if Y == X:
+                chk.ok("RHS-SHAPE", fn, obj, "(x^2 + a) is multiplied by the x that was squared", line=e3.line)
+            else:
+                chk.fail("RHS-SHAPE", fn, obj, "`%s` multiplies (x^2 + a) by `%s` although `%s` was squared: the value is not g of anything the comment, the construction or the "
+                         "square test that follows is about" % (fn.fmt(c3)[:50], fn.fmt(c3[2][2])[:25], fn.fmt(c1[2][1])[:25]), line=e3.line)
+    return n
+
+
 def analyse(ctx, prog, chk):
     n = 0
     used = set()
@@ -169,4 +209,4 @@ def analyse(ctx, prog, chk):
     # the context fields the maps depend on are not accumulated across selections
     from . import c19_hist
     nh = c19_hist.analyse(ctx, prog, chk, field_re=re.compile(r"map"), rule="MAP-HIST")
-    return n, nh
+    return n, nh, rule_rhs_shape(ctx, prog, chk)
